@@ -7,7 +7,7 @@
 namespace runner {
 World* makeWorld(const std::string& property) {
   if (property == "C01" || property == "C02" || property == "C03" || property == "C04" || property == "C05" ||
-      property == "C06" || property == "C07")
+      property == "C06" || property == "C07" || property == "C20")
     return wa::makeEngineWorld(property);
   if (property == "C16") return wc::makeQueueWorld();
   if (property == "C13") return wf::makeFileInfoWorld();
